@@ -31,9 +31,16 @@ VoteLists(T) ==
   \cup { <<x, y, z>> : x \in BadKinds("a", T), y \in Kinds("b", T), z \in Kinds("c", T) }
   \cup { <<y, z, x>> : x \in BadKinds("a", T), y \in {Vote("b", "commit", "ok", Px(T, 1))}, z \in {Vote("c", "commit", "ok", Px(T, 1))} }
   \cup { << >> }
+(* five equal validators: four signed commits reach the quorum by themselves, the fifth vote is of every kind *)
+Good(v, T, p) == Vote(v, "commit", "ok", Px(T, p))
+FiveLists(T) ==
+  { <<Good("a", T, 1), Good("b", T, 1), Good("c", T, 1), w, x>> :
+      w \in {Good("d", T, 1), Vote("d", "commit", "ok", [kind |-> "prices", ts |-> T, p |-> [BTC |-> 0]])},
+      x \in Kinds("e", T) \cup BadKinds("e", T) }
 
 Sets == { [client |-> "cl1", height |-> 5, set |-> [a |-> 1, b |-> 1, c |-> 1]],
           [client |-> "cl1", height |-> 8, set |-> [a |-> 2, b |-> 1, c |-> 1]],
+          [client |-> "cl1", height |-> 6, set |-> [a |-> 1, b |-> 1, c |-> 1, d |-> 1, e |-> 1]],
           [client |-> "cl1", height |-> 3, set |-> [z |-> 5]],
           [client |-> "other", height |-> 9, set |-> [z |-> 5]],
           [client |-> "", height |-> 9, set |-> [z |-> 5]] }
@@ -41,12 +48,14 @@ Sets == { [client |-> "cl1", height |-> 5, set |-> [a |-> 1, b |-> 1, c |-> 1]],
 Events(s) ==
   { [type |-> "UpdateHostSet", client |-> x.client, height |-> x.height, set |-> x.set] : x \in Sets }
   \cup { [type |-> "UpdateOracle", signer |-> a, height |-> h, votes |-> vs] :
-           a \in {"e1"}, h \in {9}, vs \in VoteLists(IF s.price["TS"].ts < 10 THEN 10 ELSE IF s.price["TS"].ts < 20 THEN 20 ELSE 20) }
+           a \in {"e1"}, h \in {9},
+           vs \in LET T == IF s.price["TS"].ts < 10 THEN 10 ELSE 20 IN
+                  IF Cardinality(DOMAIN s.hostVals) = 5 THEN FiveLists(T) ELSE VoteLists(T) }
   \cup { [type |-> "UpdateOracle", signer |-> a, height |-> h, votes |-> <<Vote("a", "commit", "ok", Px(30, 1)), Vote("b", "commit", "ok", Px(30, 1)), Vote("c", "commit", "ok", Px(30, 1))>>] :
            a \in {"e1", "x"}, h \in {0, 4, 9} }
 
 S0 == InitState(<<"e1">>, "cl1", "l1-chain", Fam # "disabled", Pairs0)
-ASSUME PrintT("META " \o ToJson([execs |-> <<"e1">>, client |-> "cl1", chain |-> "l1-chain", enabled |-> Fam # "disabled", pairs |-> Pairs0, vals |-> {"a", "b", "c", "z"},
+ASSUME PrintT("META " \o ToJson([execs |-> <<"e1">>, client |-> "cl1", chain |-> "l1-chain", enabled |-> Fam # "disabled", pairs |-> Pairs0, vals |-> {"a", "b", "c", "d", "e", "z"},
                                    accts |-> {"e1", "x", "adm", "opchild", "feecollector"}, denoms |-> {"n1"}, funded |-> [x |-> [n1 |-> 1]],
                                    params |-> [admin |-> "adm", execs |-> <<"e1">>, maxVals |-> 3, histEntries |-> 1, hookGas |-> "ample", fw |-> << >>], devs |-> Devs]))
 
